@@ -513,3 +513,38 @@ package kv
 //@ func (*persistEncryptor).Load
 //@   requires e != nil && e.encryptor != nil && e.Persist != nil
 //@   modifies nothing
+
+// ---------------------------------------------------------------------------
+// TraceHistory (property C17): along every chain of predecessors the reported
+// entries are strictly decreasing in time: an entry is reported only if it is
+// strictly older than the cutoff of its queue element, and every predecessor
+// queued for the next round carries as its cutoff the time of the entry that
+// was just reported for its successor.
+//@ ghostvar traceCut int
+//@ func (*DB).TraceHistory#cb
+//@   trusted
+//@   modifies nothing
+//@ func (*dbAndCutoff).root
+//@   requires r != nil && r.db != nil
+//@   modifies nothing
+//@ func (*DB).TraceHistory
+//@   requires dbOK(s) && s.cfg.Storage != nil
+//@   modifies lists, lastPutPrefix, lastPutName, lastPutOK, puts, deletes, traceCut, s.cfg.Storage.Prefix
+//@   ensures never-writes: puts == old(puts) && deletes == old(deletes)
+//@   at call:funcvalue assert reported-entry-is-older-than-its-successor: gv.ModEpochNanos < r.cutoff
+//@   at call:funcvalue ghost traceCut = gv.ModEpochNanos
+//@   loop 1 invariant puts == old(puts) && deletes == old(deletes) && s.cfg != nil && s.cfg.Storage != nil && s.s3Client != nil
+//@   loop 1 invariant forall j int :: imp(0 <= j && j < len(round), round[j].db != nil && round[j].db.crdt.Mast != nil)
+//@   loop 2 invariant -1 <= rangeindex && rangeindex < len(round) && puts == old(puts) && deletes == old(deletes) && s.cfg != nil && s.cfg.Storage != nil && s.s3Client != nil
+//@   loop 2 invariant forall j int :: imp(0 <= j && j < len(round), round[j].db != nil && round[j].db.crdt.Mast != nil)
+//@   loop 2 invariant forall j int :: imp(0 <= j && j < len(nextRound), nextRound[j].db != nil && nextRound[j].db.crdt.Mast != nil)
+//@   loop 3 invariant -1 <= rangeindex && rangeindex < 9223372036854775807 && puts == old(puts) && deletes == old(deletes) && s.cfg != nil && s.cfg.Storage != nil && s.s3Client != nil
+//@   loop 3 invariant queued-cutoff-is-the-reported-time: len(nextRound) >= 1 && nextRound[len(nextRound) - 1].cutoff == traceCut
+//@   loop 3 invariant forall j int :: imp(0 <= j && j < len(round), round[j].db != nil && round[j].db.crdt.Mast != nil)
+//@   loop 3 invariant forall j int :: imp(0 <= j && j < len(nextRound), nextRound[j].db != nil && nextRound[j].db.crdt.Mast != nil)
+//@   loop 4 invariant -1 <= rangeindex && rangeindex < len(round) && queuedOrDone != nil
+//@   loop 4 invariant forall j int :: imp(0 <= j && j < len(round), round[j].db != nil && round[j].db.crdt.Mast != nil)
+//@   loop 4 invariant forall j int :: imp(0 <= j && j < len(nextRound), nextRound[j].db != nil && nextRound[j].db.crdt.Mast != nil)
+//@   loop 5 invariant -1 <= rangeindex && rangeindex < len(nextRound) && queuedOrDone != nil
+//@   loop 5 invariant forall j int :: imp(0 <= j && j < len(nextRound), nextRound[j].db != nil && nextRound[j].db.crdt.Mast != nil)
+//@   loop 5 invariant forall j int :: imp(0 <= j && j < len(trimmed), trimmed[j].db != nil && trimmed[j].db.crdt.Mast != nil)
